@@ -48,12 +48,31 @@ def executor_view():
     )
 
 
+KILLED = []  # pids this process has sent a fatal signal to
+
+
 def kill_pids(pids, how):
     for p in pids:
         try:
             os.kill(p, SIGS[how])
+            KILLED.append(p)
         except ProcessLookupError:
             pass
+
+
+def survivors():
+    """Victims of a parent-side kill that are still running (state other than zombie): the fault was NOT delivered."""
+    out = []
+    for p in KILLED:
+        try:
+            with open(f"/proc/{p}/stat") as f:
+                st = f.read()
+            state = st[st.rindex(")") + 2:].split()[0]
+            if state != "Z":
+                out.append([p, state])
+        except OSError:
+            pass
+    return out
 
 
 def main():
@@ -115,6 +134,7 @@ def main():
         # backend; for an unmanaged one `after` (configure ran inside the call and terminate() keeps it)
         last_pids = [p for p in after["pids"]]
         rec["live_pids"] = last_pids
+        rec["survivors"] = survivors()
         emit(rec)
 
     kw = dict(n_jobs=n_jobs, backend="loky")
@@ -137,7 +157,8 @@ def main():
             if c.get("batch_size"):
                 extra["batch_size"] = c["batch_size"]
             one_call(Parallel(**kw, **extra), ci, c)
-    emit(dict(ev="done"))
+    time.sleep(0.05)
+    emit(dict(ev="done", survivors=survivors()))
     sys.stdout.flush()
 
 
